@@ -32,6 +32,11 @@ type ahStream struct {
 	onClose func()
 	// idle is true while a Read call is blocked on an empty buffer
 	idle bool
+	// write gate: when set, the next Write blocks until the gate is closed (forced schedules)
+	gate    chan struct{}
+	gateHit chan struct{}
+	// a Write after Close fails after this delay (a slow failing peer)
+	shutWriteDelay time.Duration
 }
 
 func newAhStream(name string) *ahStream {
@@ -60,10 +65,36 @@ func (s *ahStream) Read(p []byte) (int, error) {
 	return n, nil
 }
 
+// GateNextWrite makes the next Write of the program under test block until the returned release
+// function is called; hit is signalled when a Write is waiting.
+func (s *ahStream) GateNextWrite() (hit <-chan struct{}, release func()) {
+	g, h := make(chan struct{}), make(chan struct{}, 1)
+	s.mu.Lock()
+	s.gate, s.gateHit = g, h
+	s.mu.Unlock()
+	var once sync.Once
+	return h, func() { once.Do(func() { close(g) }) }
+}
+
 func (s *ahStream) Write(p []byte) (int, error) {
 	s.mu.Lock()
-	if s.shut {
+	if g := s.gate; g != nil {
+		h := s.gateHit
+		s.gate, s.gateHit = nil, nil
 		s.mu.Unlock()
+		h <- struct{}{}
+		select {
+		case <-g:
+		case <-time.After(20 * time.Second):
+		}
+		s.mu.Lock()
+	}
+	if s.shut {
+		d := s.shutWriteDelay
+		s.mu.Unlock()
+		if d > 0 {
+			time.Sleep(d)
+		}
 		return 0, errAhClosed
 	}
 	s.wbuf = append(s.wbuf, p...)
